@@ -197,6 +197,8 @@ def t3_case(case):
             if not np.isfinite(e1):
                 c.add('post:returns-an-iterate[over-parameterised-guess]', False, 'guess ranks %s (maximal %s), row_dims %s: non-finite iterate' % (rk_o, mr, rd), sig=sig_s)
                 r4 = None
+        elif out == ('crash', 'timeout'):
+            pass        # the isolated run did not finish (loaded machine): no verdict for this sub-case
         else:
             c.add('post:returns-an-iterate[over-parameterised-guess]', False, 'guess ranks %s (maximal %s), row_dims %s: %s' % (rk_o, mr, rd, ' '.join(map(str, out))), sig=sig_s)
         if r4 is not None:
